@@ -1182,6 +1182,15 @@ class Machine:
                 ret = self.fresh(st, name, dest_ty)
                 self.event(st, "local", name, args, ret, span)
                 return self.finish_call(st, fr, t, dest_lv, ret)
+            if body.get("def_kind") == "Closure" and len(args) == 2 and isinstance(args[1], (Tup, type(UNIT))) and \
+                    body["arg_count"] == 1 + (len(args[1].elems) if isinstance(args[1], Tup) else 0):
+                # a closure called through its own (resolved) body: the rust-call ABI passes (self, (a, b, ...))
+                args = [args[0]] + (list(args[1].elems) if isinstance(args[1], Tup) else [])
+                cb_by_ref = body["locals"][1]["ty"].get("k") == "ref"
+                if not cb_by_ref and isinstance(args[0], Ref):
+                    args[0] = get_path(args[0].cell.val, args[0].path)
+                elif cb_by_ref and not isinstance(args[0], Ref):
+                    args[0] = Ref(Cell(args[0]), (), True)
             return self.enter(st, fr, name, gargs, args, dest_lv, t, span)
         if c["foreign"]:
             ret = self.fresh(st, name, dest_ty)
